@@ -95,10 +95,37 @@ func (w *World) ruleCountGuardsTight(r *Report, rule string, min int) {
 		}
 		cnt := 0
 		inLoop := map[*ssa.BasicBlock]bool{}
-		for _, lp := range naturalLoops(fn) {
+		loops := naturalLoops(fn)
+		for _, lp := range loops {
 			for b := range lp.body {
 				inLoop[b] = true
 			}
+		}
+		// rotatedPreTest: the compiler's form of `for j := range n` (and of any loop it
+		// rotates) tests the bound once BEFORE the loop (`0 < n`) and again at the bottom
+		// (`j+1 < n`), both leaving to the same block: the test in front is the loop test
+		// of the first iteration, not a guard that refuses a count — like the header test
+		// of `for j := 0; j < n; j++`, which is skipped as being inside the loop.
+		rotatedPreTest := func(b, into, out *ssa.BasicBlock, operand ssa.Value) bool {
+			for _, lp := range loops {
+				if lp.header != into || lp.body[b] {
+					continue
+				}
+				for lb := range lp.body {
+					li, ok := lb.Instrs[len(lb.Instrs)-1].(*ssa.If)
+					if !ok {
+						continue
+					}
+					lbo, ok := li.Cond.(*ssa.BinOp)
+					if !ok || (lbo.X != operand && lbo.Y != operand) {
+						continue
+					}
+					if (lb.Succs[0] == lp.header && lb.Succs[1] == out) || (lb.Succs[1] == lp.header && lb.Succs[0] == out) {
+						return true
+					}
+				}
+			}
+			return false
 		}
 		for _, b := range fn.Blocks {
 			iff, ok := b.Instrs[len(b.Instrs)-1].(*ssa.If)
@@ -138,6 +165,9 @@ func (w *World) ruleCountGuardsTight(r *Report, rule string, min int) {
 					other = b.Succs[1]
 				}
 				if !onlyReturns(succ) || onlyReturns(other) {
+					continue
+				}
+				if rotatedPreTest(b, other, succ, operand) {
 					continue
 				}
 				if f == nil {
